@@ -50,6 +50,14 @@ def c15(res, st, std_coq):
         ins.append(b"".join(rnd.choice(pool) for _ in range(rnd.randrange(0, 9))))
     for _ in range(2000 if res.tier == "quick" else 50000):
         ins.append(gens.random_bytes(rnd, rnd.randrange(1, 12)))
+    # every reserved keyword (from the regenerated table) in upper, lower and mixed case, and with one character added/removed:
+    # QuoteSQLIdent may return a name unquoted only if it is not a keyword
+    kws = keywords_from_gen()
+    for k in kws:
+        low = k.lower()
+        mixed = bytes(c ^ 0x20 if (i % 2 and 65 <= c <= 90) else c for i, c in enumerate(k))
+        ins += [k, low, mixed, k.capitalize(), k + b"_", b"_" + k, k[:-1], k + b"1", low + b" ", k + b"`"]
+    res.extra["keywords_exercised"] = len(kws)
     inp = ("\n".join(hexs(x) for x in ins) + "\n").encode()
     g = vlib._run_out([vlib.HARNESS, "quote-cases"], inp)
     m = vlib._run_out([vlib.DRIVER, "quote-cases", tbl], inp)
@@ -72,3 +80,10 @@ def c15(res, st, std_coq):
                        "/ distinct random values")
     res.assumptions += ["unicode.IsPrint is universally quantified in the theorems; only the correspondence uses Go's table",
                         "fmt %02x/%04x/%08x modelled by hex_fixed (compared on every case)"]
+
+
+def keywords_from_gen():
+    """the keyword table as regenerated by the translator from token/keywords.go (comment after each row)"""
+    import re
+    src = open(os.path.join(vlib.COQ, "theories", "Gen", "Keywords.v")).read()
+    return [m.encode() for m in re.findall(r"\(\* ([A-Z_]+) \*\)", src)]
